@@ -48,6 +48,9 @@ SOCKET_OPS = {
     'socket.getaddrinfo', 'socket.socket',
     'socket.connect', 'socket.sendall', 'socket.send', 'socket.recv', 'socket.recv_into',
     'socket.shutdown', 'socket.close', 'socket.settimeout', 'socket.setsockopt', 'socket.pending',
+    'socket.unwrap', 'socket.do_handshake', 'socket.accept', 'socket.bind', 'socket.listen', 'socket.recvfrom',
+    'socket.sendto', 'socket.getpeername', 'socket.getsockname', 'socket.makefile', 'socket.create_connection',
+    'socket.gethostbyname', 'socket.sendfile', 'socket.getpeercert', 'socket.setblocking',
     'sslctx.wrap_socket', 'ssl.wrap_socket', 'ssl.SSLContext',
     'poll.poll', 'select.select', 'kqueue.control',
 }
